@@ -56,7 +56,7 @@ CATALOGUE = [
     ("tape-name-too-long", ["{I}«make_wav \"x.wav\", \"seventeen chars..\""], "too-long-string", "error", ("S",)),
     ("user-error", ["{I}«.error something is wrong"], "user-error", "error", ("S",)),
     ("label-in-repeat", ["{I}«.repeat 2 { »inrep: nop }"], "unexpected-symbol-definition", "error", ("T",)),
-    ("unterminated-string", ["{I}«.ascii »\"abc"], "unterminated-string", "critical", ("T",)),
+    ("unterminated-string", ["{I}«.ascii »\"abc"], None, "critical", ()),   # the string swallows the following lines: same file only
     ("bad-escape", ["{I}«.ascii \"a»\\qb\""], "invalid-escape", "error", ("T",)),
     ("register-named-label", ["{I}«»r0: nop"], "reserved-name", "error", ("T",)),
     ("register-named-constant", ["{I}«»sp = 1"], "reserved-name", "error", ("T",)),
